@@ -13,7 +13,8 @@ COMMON := $(STD) $(OPT) $(SAN) $(WARN) -pthread -I$(H) -MMD -MP
 REPODEF = -DCPP_UTILITY_BACKOFF_TIME=10 -DCPP_UTILITY_HAS_SPINLOCK_HINT
 PRELUDE := -include $(H)/vsched_prelude.hpp
 
-LOCK_SRCS := pessimistic_lock optimistic_lock mcs_lock
+# every translation unit the library has today or gains through an edit (new files are picked up)
+LOCK_SRCS := $(basename $(notdir $(wildcard $(REPO)/src/lock/*.cpp)))
 
 .PHONY: all lock thread zipf seq clean
 all: lock thread zipf seq
@@ -54,7 +55,7 @@ $(B)/lock_fuzz/lock_fuzz: $(B)/lock_fuzz/lock_fuzz.o $(B)/lock_fuzz/interp_lock.
 lock: $(B)/lock_r1/lock_harness $(B)/lock_r10/lock_harness $(B)/lock_fuzz/lock_fuzz
 
 # ---------------------------------------------------------------- thread family, one variant per capacity
-THREAD_SRCS := id_manager epoch_manager epoch_guard component/epoch
+THREAD_SRCS := $(basename $(notdir $(wildcard $(REPO)/src/thread/*.cpp))) $(addprefix component/,$(basename $(notdir $(wildcard $(REPO)/src/thread/component/*.cpp))))
 define THREAD_VARIANT
 $(B)/thread_c$(1)/repo_%.o: $(REPO)/src/thread/%.cpp $(H)/vsched_prelude.hpp $(H)/vsched_api.hpp
 	@mkdir -p $$(dir $$@)
@@ -70,24 +71,25 @@ $(foreach c,$(THREAD_CAPS),$(eval $(call THREAD_VARIANT,$(c))))
 thread: $(foreach c,$(THREAD_CAPS),$(B)/thread_c$(c)/thread_harness)
 
 # ---------------------------------------------------------------- Zipf family (pure; no prelude)
-$(B)/zipf/repo_zipf.o: $(REPO)/src/random/zipf.cpp
+RANDOM_SRCS := $(basename $(notdir $(wildcard $(REPO)/src/random/*.cpp)))
+$(B)/zipf/repo_%.o: $(REPO)/src/random/%.cpp
 	@mkdir -p $(dir $@)
 	$(CXX) $(COMMON) -I$(REPO)/include -c $< -o $@
 $(B)/zipf/zipf_main.o: $(H)/zipf_main.cpp
 	@mkdir -p $(dir $@)
 	$(CXX) $(COMMON) -I$(REPO)/include -c $< -o $@
-$(B)/zipf/zipf_harness: $(B)/zipf/zipf_main.o $(B)/zipf/repo_zipf.o
+$(B)/zipf/zipf_harness: $(B)/zipf/zipf_main.o $(foreach s,$(RANDOM_SRCS),$(B)/zipf/repo_$(s).o)
 	$(CXX) $(STD) $(SAN) -pthread $^ -lrapidcheck -o $@
 # libFuzzer second engine (thorough tier): clang + fuzzer,address,undefined
 FUZZ_CXX ?= clang++
 FUZZFLAGS := -std=c++20 -g -O1 -fno-omit-frame-pointer -fsanitize=fuzzer-no-link,address,undefined -fno-sanitize-recover=undefined -I$(H) -I$(REPO)/include -MMD -MP
-$(B)/zipf/fuzz_repo_zipf.o: $(REPO)/src/random/zipf.cpp
+$(B)/zipf/fuzz_repo_%.o: $(REPO)/src/random/%.cpp
 	@mkdir -p $(dir $@)
 	$(FUZZ_CXX) $(FUZZFLAGS) -c $< -o $@
 $(B)/zipf/zipf_fuzz.o: $(H)/zipf_fuzz.cpp
 	@mkdir -p $(dir $@)
 	$(FUZZ_CXX) $(FUZZFLAGS) -c $< -o $@
-$(B)/zipf/zipf_fuzz: $(B)/zipf/zipf_fuzz.o $(B)/zipf/fuzz_repo_zipf.o
+$(B)/zipf/zipf_fuzz: $(B)/zipf/zipf_fuzz.o $(foreach s,$(RANDOM_SRCS),$(B)/zipf/fuzz_repo_$(s).o)
 	$(FUZZ_CXX) -std=c++20 -fsanitize=fuzzer,address,undefined -pthread $^ -o $@
 zipf: $(B)/zipf/zipf_harness $(B)/zipf/zipf_fuzz
 
